@@ -142,7 +142,7 @@ import re as _re
 _IDENT_RE = _re.compile(r'^[A-Za-z_][A-Za-z0-9_]*$')
 
 _NOT_BEFORE = {'.', '::', 'fn', 'struct', 'enum', 'mod', 'impl', 'trait', 'type', 'const', 'static', 'use', 'for', "'", 'dyn', 'as'}
-_NOT_AFTER = {'(', '::', '!', '<', '{'}
+_NOT_AFTER = {'(', '::', '!', '<'}
 _RESERVED = {'self', 'Self', 'super', 'crate', 'mut', 'ref', 'let', 'match', 'if', 'else', 'return', 'move', 'async', 'await',
              'pub', 'where', 'in', 'true', 'false', 'loop', 'while', 'break', 'continue', 'unsafe', 'core', 'ctx', '_state'}
 
@@ -161,13 +161,15 @@ def _only_local_roles(toks, name):
         nxt = toks[i + 1] if i + 1 < len(toks) else ''
         if prev in _NOT_BEFORE or nxt in _NOT_AFTER:
             return False
+        if nxt == '{' and not (prev == 'match' or (prev in ('&', '*') and i >= 2 and toks[i - 2] == 'match')):
+            return False      # `name { … }` is a struct literal unless it is the scrutinee of a match
         if prev == ':' and i >= 2 and toks[i - 2] != ':':
             # `x : name` — a type or a value in a struct literal; a value is fine, a type is not (types are
             # upper-case in generated code; lower-case primitive types are not renamed by anyone)
             pass
     return seen
 
-def _local_rename_only(mt, it, user_words=()):
+def _local_rename_only(mt, it, user_words=(), fresh_against=None):
     if len(mt) != len(it):
         return False
     fwd = {}
@@ -180,7 +182,7 @@ def _local_rename_only(mt, it, user_words=()):
             return False
     if not fwd or len(set(fwd.values())) != len(fwd):
         return False
-    mset = set(mt)
+    mset = set(mt) if fresh_against is None else fresh_against
     if any(v in mset for v in fwd.values()):
         return False      # the new name already means something in the expansion
     # every occurrence of a renamed local is renamed
@@ -221,12 +223,223 @@ def _canon_items(toks):
         out.append(item)
     return sorted(out)
 
+def _segments(toks):
+    """split a token span at brace-depth 0 into segments: runs separated by `,` / `;`, and every `{ … }` group's
+    interior as a segment of its own (binders of a `let`, a match arm or a block do not cross these)"""
+    segs, cur, depth, i = [], [], 0, 0
+    n = len(toks)
+    while i < n:
+        t = toks[i]
+        if t == '{' and depth == 0:
+            # find the matching brace
+            d, j = 1, i + 1
+            while j < n and d:
+                if toks[j] == '{':
+                    d += 1
+                elif toks[j] == '}':
+                    d -= 1
+                j += 1
+            cur.append('{')
+            segs.append(('run', cur)); cur = []
+            segs.append(('block', toks[i + 1:j - 1]))
+            cur.append('}')
+            i = j
+            continue
+        if t in ('(', '['):
+            depth += 1
+        elif t in (')', ']'):
+            depth -= 1
+        cur.append(t)
+        if t in (',', ';') and depth == 0:
+            segs.append(('run', cur)); cur = []
+        i += 1
+    if cur:
+        segs.append(('run', cur))
+    return segs
+
+def _alpha_ok(mt, it, fresh_against, user_words, level=0):
+    """are two token spans equal up to renaming of local variables, scope by scope? Each segment must be equal
+    or differ by a functional renaming of local-role identifiers to names that occur nowhere in the model's
+    item (`fresh_against`); otherwise it is split further."""
+    if mt == it:
+        return True
+    if len(mt) != len(it) or level > 12:
+        return False
+    if _local_rename_only(mt, it, user_words, fresh_against):
+        return True
+    sm, si = _segments(mt), _segments(it)
+    if len(sm) != len(si) or len(sm) <= 1:
+        return False
+    for (ka, a), (kb, b) in zip(sm, si):
+        if ka != kb or len(a) != len(b):
+            return False
+        if not _alpha_ok(a, b, fresh_against, user_words, level + 1):
+            return False
+    return True
+
+def _match_close(toks, i):
+    """index of the bracket closing the one opened at i"""
+    op = toks[i]
+    cl = {'{': '}', '(': ')', '[': ']'}[op]
+    d = 0
+    for j in range(i, len(toks)):
+        if toks[j] == op:
+            d += 1
+        elif toks[j] == cl:
+            d -= 1
+            if d == 0:
+                return j
+    return len(toks) - 1
+
+def _enclosing_block_end(toks, p):
+    """index of the `}` closing the innermost `{` that contains position p (len if none)"""
+    d = 0
+    for j in range(p, len(toks)):
+        if toks[j] == '{':
+            d += 1
+        elif toks[j] == '}':
+            if d == 0:
+                return j
+            d -= 1
+    return len(toks)
+
+def _binders(toks):
+    """(position, scope_lo, scope_hi) of the local binders of an item: `let` patterns, match-arm patterns,
+    function parameters (approximate but conservative: anything not recognised is a use)"""
+    out = []
+    n = len(toks)
+    def is_var(i):
+        t = toks[i]
+        return (_IDENT_RE.match(t) and (t[0].islower() or t[0] == '_') and t not in _RESERVED and
+                (i + 1 >= n or toks[i + 1] not in ('(', '::', '!')) and (i == 0 or toks[i - 1] not in ('.', '::')))
+    i = 0
+    while i < n:
+        t = toks[i]
+        if t == 'let':
+            j = i + 1
+            depth = 0
+            while j < n and not (toks[j] in ('=', ':') and depth == 0) and toks[j] != ';':
+                if toks[j] in ('(', '['):
+                    depth += 1
+                elif toks[j] in (')', ']'):
+                    depth -= 1
+                j += 1
+            # end of the statement
+            k = j
+            d = 0
+            while k < n and not (toks[k] == ';' and d == 0):
+                if toks[k] in ('(', '[', '{'):
+                    d += 1
+                elif toks[k] in (')', ']', '}'):
+                    d -= 1
+                    if d < 0:
+                        break
+                k += 1
+            hi = _enclosing_block_end(toks, k)
+            for q in range(i + 1, j):
+                if toks[q] != 'mut' and is_var(q):
+                    out.append((q, k + 1, hi))
+        elif t == '=>':
+            # the arm pattern: back to the previous `{` or `,` at depth 0
+            j = i - 1
+            d = 0
+            while j >= 0:
+                if toks[j] in (')', ']', '}'):
+                    d += 1
+                elif toks[j] in ('(', '[', '{'):
+                    if d == 0:
+                        break
+                    d -= 1
+                elif toks[j] == ',' and d == 0:
+                    break
+                j -= 1
+            # the arm body
+            if i + 1 < n and toks[i + 1] == '{':
+                hi = _match_close(toks, i + 1)
+            else:
+                k = i + 1
+                d = 0
+                while k < n and not (toks[k] == ',' and d == 0):
+                    if toks[k] in ('(', '[', '{'):
+                        d += 1
+                    elif toks[k] in (')', ']', '}'):
+                        d -= 1
+                        if d < 0:
+                            break
+                    k += 1
+                hi = k
+            for q in range(j + 1, i):
+                if is_var(q):
+                    out.append((q, i + 1, hi))
+        elif t == 'fn' and i + 2 < n and toks[i + 2] == '(':
+            close = _match_close(toks, i + 2)
+            # body: the next `{` at depth 0 after the signature
+            k = close + 1
+            while k < n and toks[k] != '{' and toks[k] != ';':
+                k += 1
+            if k < n and toks[k] == '{':
+                hi = _match_close(toks, k)
+                for q in range(i + 3, close):
+                    if q + 1 < n and toks[q + 1] == ':' and toks[q] != 'self' and is_var(q):
+                        out.append((q, k + 1, hi))
+        i += 1
+    return out
+
+def _merge_punct(toks):
+    """the flattened streams carry punctuation one character at a time: re-join `::`, `=>`, `->`"""
+    out = []
+    i = 0
+    n = len(toks)
+    while i < n:
+        if i + 1 < n and (toks[i], toks[i + 1]) in ((':', ':'), ('=', '>'), ('-', '>')):
+            out.append(toks[i] + toks[i + 1])
+            i += 2
+        else:
+            out.append(toks[i])
+            i += 1
+    return out
+
+def _alpha_equiv(mt, it, user_words):
+    """do two token lists of one item differ only by renaming variables bound inside it (let / match arm /
+    parameter), each to a name that occurs nowhere in the model's item, with every use in the binder's scope
+    renamed alike? (binder detection is approximate; what it does not recognise must be token-equal)"""
+    if len(mt) != len(it):
+        return False
+    mt, it = _merge_punct(mt), _merge_punct(it)
+    if len(mt) != len(it):
+        return False
+    mset = set(mt)
+    expect = list(mt)
+    for (p, lo, hi) in sorted(_binders(mt), key=lambda b: (b[1], -b[2])):
+        a, b = mt[p], it[p]
+        if a == b:
+            # unchanged binder: re-establishes the name in its scope (it may shadow a renamed outer one)
+            for q in range(lo, min(hi, len(mt))):
+                if mt[q] == a:
+                    expect[q] = a
+            expect[p] = a
+            continue
+        if not _IDENT_RE.match(b) or b == '_' or a == '_' or b in mset or a in user_words or not _only_local_roles(mt, a):
+            return False      # (`_` is not a binding: the value is dropped at once)
+        expect[p] = b
+        for q in range(lo, min(hi, len(mt))):
+            if mt[q] == a:
+                expect[q] = b
+    return expect == it
+
 def _user_words(lines):
+    """the user's own identifiers, read off the front-end dump: everything but the line kinds and the field
+    labels (`event go p=- g=a,b` contributes go, a, b; not `event`, `p`, `g`)"""
     import re
     out = set()
     for l in lines:
-        if not l.startswith('T\t'):
-            out.update(re.findall(r'[A-Za-z_][A-Za-z0-9_]*', l))
+        if l.startswith('T\t') or l.startswith('R\t'):
+            continue
+        parts = l.strip().split()
+        for t in parts[1:]:
+            if '=' in t:
+                t = t.split('=', 1)[1]
+            out.update(re.findall(r'[A-Za-z_][A-Za-z0-9_]*', t))
     return out
 
 def compare_one(model, impl):
@@ -263,7 +476,7 @@ def compare_one(model, impl):
                 # scope by scope: a local never crosses a top-level item
                 mi, ii = _split_items(mt), _split_items(it)
                 uw = _user_words(m2)
-                if len(mi) == len(ii) and all(a == b or _local_rename_only(a, b, uw) for a, b in zip(mi, ii)):
+                if len(mi) == len(ii) and all(a == b or _alpha_equiv(list(a), list(b), uw) for a, b in zip(mi, ii)):
                     notes.append('local-rename')
                     continue
             j = 0
